@@ -118,11 +118,15 @@ def stmt_lines(form, args):
         "assoc_tb": ["associate (obj => c)", "  call obj%reset()", "end associate"],
         "assoc_shadow": ["associate (obj => c)", "  associate (obj => l)", "    call obj%reset()", "  end associate", "end associate"],
         "assoc_inner_outer": ["associate (obj => c)", "  associate (obj => l)", "    call obj%reset()", "  end associate", "  x = obj%area()", "end associate"],
+        "assoc_elem": ["associate (obj => cs(2))", "  call obj%reset()", "end associate"],
+        "assoc_section": ["associate (row => sinx(2:3))", "  x = row(1)", "end associate"],
+        "assoc_funcsel": [f"associate (z => {a[0]})", "  x = z + z", "end associate"] if a else [],
+        "extern": ["x = extf(1.0)"],
         "return": ["x = 0"],
     }[n]
 
 
-DECLS = ["use lib", "use shapes", "implicit none", "type(circle) :: c", "type(logger) :: l", "real :: x, callme", "real :: sinx(10)", "real, allocatable :: arr(:)", "integer :: i"]
+DECLS = ["use lib", "use shapes", "implicit none", "type(circle) :: c", "type(circle) :: cs(3)", "real :: extf", "external extf", "type(logger) :: l", "real :: x, callme", "real :: sinx(10)", "real, allocatable :: arr(:)", "integer :: i"]
 LABELS = ["10 continue", "20 continue", "30 continue"]
 
 
@@ -209,7 +213,7 @@ def evaluate(case):
                     tag = "block-decl"
                 elif form["n"] == "cgoto_if" and not names and not extra and not dup:
                     tag = "cgoto-line-skipped"          # as built: a line holding a computed GO TO is not scanned at all
-            elif any(unresolved):
+            elif any(u for n_, u in zip(names, unresolved) if n_ != "extf"):      # extf is an external function: there is nothing to resolve it to
                 bad = f"calls {names} recorded but not resolved to the procedures of module lib"
                 tag = "unresolved"
             if bad:
@@ -296,7 +300,7 @@ def main():
             run(a.tier, a.seed, ck)
     except tlc.TLCFailure as e:
         return machinery_failure(PROP, str(e))
-    return ck.finish(rule="cases = statements of spec/Calls.tla (33 statement forms x expression trees of depth <= 2 over user functions, intrinsics, an "
+    return ck.finish(rule="cases = statements of spec/Calls.tla (37 statement forms x expression trees of depth <= 2 over user functions, intrinsics, an "
                           "array, scalars and a literal containing call-like text) rendered in program / module subroutine / module function and in "
                           "plain / continued / ';'-joined layout; non-trivial iff the statement invokes something or is a form that must not be "
                           "scanned; distinct by (form, expressions)", exhaustive=(a.tier == "thorough"))
